@@ -30,6 +30,11 @@ def main():
             continue
         r = e.solve(ob, a.timeout, want_model=bool(a.dump), extract=(lambda eng, m: str(m)))
         print("%-8s %6.2fs  %s" % (r, ob.time, ob.name), ob.reason or "")
+        if ob.kind == "probe":
+            if r == "unsat":
+                print("   ^^^ VACUOUS: assumptions are contradictory here")
+                bad += 1
+            continue
         if r != "unsat":
             bad += 1
             if a.dump and a.dump in ob.name:
